@@ -237,6 +237,19 @@ func runC13(c *Ctx, r *Report, tier string) {
 			}
 		}
 	}
+	if !okOwn {
+		// the same written as two early returns: the command's group for the empty name, Find(name) when it finds one
+		retOwn, retFind := false, false
+		for _, ret := range returnsOf(cg) {
+			switch c.term(ret.Results[0]) {
+			case "Command.Group(P0)":
+				_, retOwn = c.Requires(cg, isInstr(ret), litIs("nonempty(P1)", false), nil)
+			case "call:(*Group).Find(Command.Group(P0), P1)":
+				retFind = true
+			}
+		}
+		okOwn = retOwn && retFind
+	}
 	for _, ci := range c.instrsCtx(cg, c.isCallTo("(*Group).Find")) {
 		var rt string
 		c.within(ci.Frames, func() { rt = c.term(ci.In.(*ssa.Call).Call.Args[0]) })
